@@ -603,7 +603,7 @@ void h_start_for(void) {
 
 #ifdef TASK_STG
 struct filter { int d; }; struct pipeline { struct wait_context wait_ctx; };
-struct stage_task { struct pipeline *my_pipeline; struct filter *my_filter; void *my_object; struct small_object_allocator m_allocator; };
+struct stage_task { struct pipeline *my_pipeline; struct filter *my_filter; void *my_object; uint64_t my_token; bool my_token_ready, is_valid, my_at_start; struct small_object_allocator m_allocator; };   /* my_token.. my_at_start: arbitrary (is_valid is set only by input_buffer::try_put_token, it says nothing about ownership of my_object) */
 static struct stage_task STG; static struct pipeline PIPE; static struct filter FIL; static int ITEM; bool g_task_owns_item;
 void stg_dtor(struct stage_task *self);
 #define ALLOC_DELETE_OBJECT(a, obj, ed) do { struct small_object_allocator al_ = *(a); __CPROVER_assert(g_objdtor == 0, "C03.destroy: the task is destructed once"); g_objdtor++; stg_dtor(obj); (obj)->m_allocator.pool = -1; alloc_deallocate(&al_, (obj), &STG, 7); } while (0)
@@ -620,6 +620,7 @@ static bool STG_EXECUTE_FILTER(struct stage_task *self, execution_data_ext *ed) 
 void h_stage_task(void) {
     tasks_world(); PIPE.wait_ctx.refs = nondet_u64(); __CPROVER_assume(PIPE.wait_ctx.refs >= 1); uint64_t r0 = PIPE.wait_ctx.refs; STG.my_pipeline = &PIPE; STG.m_allocator.pool = 7;
     STG.my_filter = &FIL; g_task_owns_item = nondet_bool(); STG.my_object = g_task_owns_item ? &ITEM : NULL; bool owned_in = g_task_owns_item;
+    STG.my_token = nondet_u64(); STG.my_token_ready = nondet_bool(); STG.is_valid = nondet_bool(); STG.my_at_start = nondet_bool();
     execution_data_ext ed; bool cancelled = nondet_bool(); task *nx; bool recycled = false;
     if (cancelled) nx = stg_cancel(&STG, &ed);
     else { nx = stg_execute(&STG, &ed);
